@@ -2,109 +2,22 @@
 //! argument (or stdin), executes them against the real unimock crate and
 //! prints one observation line per event.  Format: see /verif/gen/cases.py.
 
+mod caseparse;
 mod interp;
 mod inventory;
 mod walk;
 
 use interp::Event;
 use std::io::{BufRead, Write};
-use unimock::verif::DynClause;
+use caseparse::{build_clause, Term, Toks};
+pub use caseparse::{Op, Opener, Pat};
 use unimock::*;
-
-#[derive(Clone, Debug)]
-pub enum Op {
-    Ret(u32),
-    RetDefault,
-    Ans(u32),
-    AnsArc(u32),
-    Panics(u32),
-    Unmocked,
-    DefaultImpl,
-    Once,
-    NTimes(usize),
-    AtLeast(usize),
-    Then,
-}
-
-#[derive(Clone, Debug)]
-pub struct Pat {
-    pub matcher: Option<u64>,
-    pub dbg: Option<u32>,
-    pub ops: Vec<Op>,
-}
-
-#[derive(Clone, Copy, Debug, PartialEq)]
-pub enum Opener {
-    Some,
-    Each,
-    Next,
-}
-
-#[derive(Clone, Debug)]
-enum Term {
-    Call(u32, Opener, Pat),
-    Stub(u32, Vec<Pat>),
-}
 
 struct Case {
     id: String,
     partial: bool,
     terms: Vec<Term>,
     events: Vec<Event>,
-}
-
-struct Toks<'a>(std::str::SplitWhitespace<'a>);
-impl<'a> Toks<'a> {
-    fn next(&mut self) -> &'a str {
-        self.0.next().expect("unexpected end of case line")
-    }
-    fn num<N: std::str::FromStr>(&mut self) -> N
-    where
-        N::Err: std::fmt::Debug,
-    {
-        self.next().parse().expect("number")
-    }
-}
-
-fn opt_num<N: std::str::FromStr>(s: &str) -> Option<N>
-where
-    N::Err: std::fmt::Debug,
-{
-    if s == "-" {
-        None
-    } else {
-        Some(s.parse().expect("number"))
-    }
-}
-
-fn parse_op(s: &str) -> Op {
-    let (head, arg) = match s.split_once(':') {
-        Some((h, a)) => (h, Some(a)),
-        None => (s, None),
-    };
-    let n = || arg.expect("op arg").parse::<u32>().expect("op arg number");
-    match head {
-        "ret" => Op::Ret(n()),
-        "retd" => Op::RetDefault,
-        "ans" => Op::Ans(n()),
-        "ansarc" => Op::AnsArc(n()),
-        "pan" => Op::Panics(n()),
-        "unm" => Op::Unmocked,
-        "dfl" => Op::DefaultImpl,
-        "once" => Op::Once,
-        "n" => Op::NTimes(n() as usize),
-        "al" => Op::AtLeast(n() as usize),
-        "then" => Op::Then,
-        _ => panic!("bad op {s}"),
-    }
-}
-
-fn parse_pat(t: &mut Toks) -> Pat {
-    let matcher = opt_num::<u64>(t.next());
-    let dbg = opt_num::<u32>(t.next());
-    let nops: usize = t.num();
-    let ops = (0..nops).map(|_| parse_op(t.next())).collect();
-    Pat { matcher, dbg, ops }
 }
 
 fn parse_case(line: &str) -> Case {
@@ -116,30 +29,7 @@ fn parse_case(line: &str) -> Case {
         "partial" => true,
         other => panic!("bad fallback {other}"),
     };
-    assert_eq!(t.next(), "T");
-    let nterms: usize = t.num();
-    let mut terms = vec![];
-    for _ in 0..nterms {
-        match t.next() {
-            "c" => {
-                let mid: u32 = t.num();
-                let opener = match t.next() {
-                    "some" => Opener::Some,
-                    "each" => Opener::Each,
-                    "next" => Opener::Next,
-                    other => panic!("bad opener {other}"),
-                };
-                terms.push(Term::Call(mid, opener, parse_pat(&mut t)));
-            }
-            "s" => {
-                let mid: u32 = t.num();
-                let npats: usize = t.num();
-                let pats = (0..npats).map(|_| parse_pat(&mut t)).collect();
-                terms.push(Term::Stub(mid, pats));
-            }
-            other => panic!("bad term {other}"),
-        }
-    }
+    let terms = caseparse::parse_terms(&mut t);
     assert_eq!(t.next(), "E");
     let nev: usize = t.num();
     let mut events = vec![];
@@ -152,17 +42,6 @@ fn parse_case(line: &str) -> Case {
         terms,
         events,
     }
-}
-
-fn build_clause(terms: &[Term]) -> Result<DynClause, String> {
-    let mut dc = DynClause::new();
-    for t in terms {
-        match t {
-            Term::Call(mid, opener, pat) => walk::push_call(&mut dc, *mid, *opener, pat)?,
-            Term::Stub(mid, pats) => walk::push_stub(&mut dc, *mid, pats)?,
-        }
-    }
-    Ok(dc)
 }
 
 fn run_case(case: &Case, out: &mut impl Write) {
